@@ -213,7 +213,8 @@ def run(ctx):
     kinds = [("luminosity", {"name": "lumi", "is_scalar": True, "constrained": True, "n_parameters": Poly.const(1)}, {"name": "lumi", "is_scalar": True})]
     # "amp_lag_2x": starts with characters of both prefixes, digits and underscores inside; "JES_1", "stat_ch_7_12": the name
     # itself ends in _<digits>, which is what the per-bin suffix looks like
-    for NAME in ("amp_lag_2x", "JES_1", "stat_ch_7_12"):
+    # "pdf_alpha_s", "tt_gamma_norm_3": the name itself CONTAINS a prefix string further inside
+    for NAME in ("amp_lag_2x", "JES_1", "stat_ch_7_12", "pdf_alpha_s", "tt_gamma_norm_3"):
         kinds += [(f"scalar constrained {NAME}", {"name": NAME, "is_scalar": True, "constrained": True, "n_parameters": Poly.const(1)}, {"name": NAME, "is_scalar": True, "constrained": True}),
                   (f"scalar unconstrained {NAME}", {"name": NAME, "is_scalar": True, "constrained": False, "n_parameters": Poly.const(1)}, {"name": NAME, "is_scalar": True, "constrained": False}),
                   (f"per-bin (2 components) {NAME}", {"name": NAME, "is_scalar": False, "constrained": True, "n_parameters": Poly.const(2)}, {"name": NAME, "is_scalar": False})]
